@@ -47,8 +47,12 @@ func (h *handler) OnSessionOpen(ctx *gortsplib.ServerHandlerOnSessionOpenCtx) {
 func (h *handler) OnSessionClose(ctx *gortsplib.ServerHandlerOnSessionCloseCtx) {
 	h.rec.SessionClose(ctx.Session)
 }
-func (h *handler) OnRequest(sc *gortsplib.ServerConn, _ *base.Request)   { h.rec.Request(sc, "OnRequest") }
-func (h *handler) OnResponse(sc *gortsplib.ServerConn, _ *base.Response) { h.rec.Request(sc, "OnResponse") }
+func (h *handler) OnRequest(sc *gortsplib.ServerConn, _ *base.Request) {
+	h.rec.Request(sc, "OnRequest")
+}
+func (h *handler) OnResponse(sc *gortsplib.ServerConn, _ *base.Response) {
+	h.rec.Request(sc, "OnResponse")
+}
 
 func (h *handler) OnDescribe(ctx *gortsplib.ServerHandlerOnDescribeCtx) (*base.Response, *gortsplib.ServerStream, error) {
 	h.rec.Request(ctx.Conn, "OnDescribe")
